@@ -241,12 +241,26 @@ def universe_unit(rep):
     base = 18264 * 1440
     n = 0
     names = ["EQ:A", "EQ:B", "EQ:C", "EQ:D"]
+    shared = {}
     for m in re.finditer(r'<<"U", <<(-?\d+), (-?\d+), (-?\d+)>>, (\d+), <<(\d), (\d), (\d)>>>>', r.out):
         ent = [int(m.group(i)) for i in (1, 2, 3)]
         t = int(m.group(4))
         exp = [names[i] for i in range(3) if m.group(5 + i) == "1"]
-        uni = DynamicUniverse(dict((names[i], (None if e == -1 else ts(base + e))) for i, e in enumerate(ent)))
+        # one universe object per entry map, asked again and again (TLC's order, then every third query once more)
+        key = tuple(ent)
+        if key not in shared:
+            shared[key] = (DynamicUniverse(dict((names[i], (None if e == -1 else ts(base + e))) for i, e in enumerate(ent))), [])
+        uni, asked = shared[key]
         got = uni.get_assets(ts(base + t))
+        got.append("mutated-by-the-caller")       # what a caller does with the returned list must not matter to the universe
+        got = got[:-1]
+        asked.append((t, exp))
+        if len(asked) % 3 == 0:
+            t_old, exp_old = asked[len(asked) // 3 - 1]
+            again = uni.get_assets(ts(base + t_old))
+            if sorted(again) != exp_old:
+                rep.violation("universe|dynamic-membership", "DynamicUniverse with entry offsets %s, asked a second time for offset %s after "
+                              "other queries, yields %s, expected %s" % (ent, t_old, again, exp_old), dict(unit="dynamic-again", entry=ent, t=t_old))
         n += 1
         if sorted(got) != exp or len(got) != len(set(got)):
             rep.violation("universe|dynamic-membership", "DynamicUniverse with entry offsets %s at offset %s yields %s, expected %s" % (ent, t, got, exp),
